@@ -10,7 +10,9 @@ from ..core import Rule
 from ..model import AnalysisError, dotted, unparse, short
 from ..cfg import cfg_of
 from .. import straight as S
-from .c08 import find_guard, raising_ifs
+from .. import shape
+from .c08 import guard_contract, raising_ifs
+from ..contract import describe_alt
 
 EXPLANATION = ("State-transformer reconstruction of the expansion loops: _tls_p_hash must initialise A(1) = HMAC(key, message) and "
                "each iteration must map (res, A) to (res || HMAC(key, A || message), HMAC(key, A)) for ceil(output_len / hash_len) "
@@ -40,49 +42,73 @@ def check(repo):
     rules = [r1, r2, r3, r4, r5]
 
     p = repo.func(PRF, "_tls_p_hash")
-    body = p.node.body
-    loop = next((st for st in body if isinstance(st, ast.While)), None)
-    if not r1.require(loop is not None, p, "expansion loop", "_tls_p_hash lost its expansion loop"):
-        return rules
-    # hash_func = functools.partial(hmac.new, digestmod=hash_func_name)
-    hf = next((st for st in body if isinstance(st, ast.Assign) and unparse(st.targets[0]) == "hash_func"), None)
-    ok = hf is not None and isinstance(hf.value, ast.Call) and dotted(hf.value.func) == "functools.partial" and hf.value.args and \
-        dotted(hf.value.args[0]) == "hmac.new" and any(k.arg == "digestmod" and unparse(k.value) == p.params[3] for k in hf.value.keywords)
-    r1.require(ok, p, "H is HMAC with the named hash", "_tls_p_hash: hash_func is no longer functools.partial(hmac.new, digestmod=<hash name parameter>)")
-    pre = [st for st in body[:body.index(loop)] if isinstance(st, (ast.Assign, ast.AugAssign))]
+    key, msg, outlen, hname = (("var", x) for x in p.params[:4])
     try:
-        env0 = S.run([st for st in pre if not (isinstance(st, ast.Assign) and unparse(st.targets[0]) == "hash_func")])
-        env1 = S.run(loop.body)
-    except S.NotStraight as e:
-        r1.fail_fn(p, loop, "loop body not straight-line", str(e))
+        sm = shape.summary(shape.bytes_accumulators(p.node))
+    except shape.NoShape as e:
+        r1.fail_fn(p, p.node, "expansion loop", "_tls_p_hash is no longer <prefix>; <one expansion loop>; return (%s)" % e)
         return rules
-    key, msg, outlen = p.params[0], p.params[1], p.params[2]
-    a0 = env0.get("a")
-    r1.require(a0 == H(_var(key), _var(msg)), p, "A(1) = HMAC(key, message)",
-               "_tls_p_hash starts the chain with %s; RFC 5246 defines A(1) = HMAC(secret, A(0)) with A(0) = seed" % (S.show(a0) if a0 else None))
-    r1.require(env0.get("res") == ("const", b""), p, "empty accumulator", "_tls_p_hash no longer starts from an empty result")
-    res1, a1 = env1.get("res"), env1.get("a")
-    want_res = ("op", "Add", _var("res"), H(_var(key), ("op", "Add", _var("a"), _var(msg))))
-    want_a = H(_var(key), _var("a"))
-    r1.require(res1 == want_res, p, "output block = HMAC(key, A(i) || message)",
-               "_tls_p_hash appends %s per iteration; P_hash appends HMAC(secret, A(i) + seed)" % (S.show(res1)[:140] if res1 else None))
-    r1.require(a1 == want_a, p, "A(i+1) = HMAC(key, A(i))", "_tls_p_hash updates A with %s; P_hash uses A(i+1) = HMAC(secret, A(i))" % (S.show(a1)[:120] if a1 else None))
-    r1.instance({"A1": S.show(a0) if a0 else None, "res'": S.show(res1) if res1 else None, "A'": S.show(a1) if a1 else None})
-    # iteration count
-    n0 = env0.get("n")
-    hl = env0.get("hash_len")
-    want_hl = ("attr", ("call", ("fn", "hash_func"), (_var(key), ("const", b"")), ()), "digest_size")
-    ok_hl = hl is not None and hl[0] == "attr" and hl[2] == "digest_size" and hl[1][0] == "call" and hl[1][1] == ("fn", "hash_func")
-    r2.require(ok_hl, p, "hash_len is the digest size of the same hash", "_tls_p_hash computes hash_len as %s" % (S.show(hl) if hl else None))
-    want_n = ("op", "FloorDiv", ("op", "Sub", ("op", "Add", _var(outlen), hl), ("const", 1)), hl) if hl else None
-    alt_n = ("call", ("fn", "math.ceil"), (("op", "Div", _var(outlen), hl),), ()) if hl else None
-    r2.require(n0 in (want_n, alt_n), p, "ceil(output_len / hash_len) blocks",
-               "_tls_p_hash produces %s blocks; ceil(output_len / hash_len) are needed to cover the requested length" % (S.show(n0) if n0 else None))
-    r2.require(unparse(loop.test) == "n > 0" and env1.get("n") == ("op", "Sub", _var("n"), ("const", 1)), p, "loop runs n times",
-               "_tls_p_hash: loop condition %s / counter update %s do not run the body exactly n times" % (unparse(loop.test), S.show(env1.get("n")) if env1.get("n") else None))
-    rets = [x for x in ast.walk(p.node) if isinstance(x, ast.Return)]
-    r2.require(len(rets) == 1 and unparse(rets[0].value) == "res[:%s]" % outlen, p, "result truncated to output_len",
-               "_tls_p_hash returns %s instead of res[:output_len]" % (unparse(rets[0].value) if rets else None))
+
+    def HM(k, m):
+        return ("call", ("method", ("call", ("fn", "hmac.new"), (k, m), (("digestmod", hname),)), "digest"), (), ())
+    A, RES = S.mv("A"), S.mv("RES")
+    eqs = [
+        (HM(key, msg), lambda asg: sm.init.get(asg["A"])),                                   # A(1) = HMAC(key, A(0) = message)
+        (("const", b""), lambda asg: sm.init.get(asg["RES"])),                                # empty accumulator
+        (("cat", (RES, HM(key, ("cat", (A, msg))))), lambda asg: sm.step.get(asg["RES"])),    # res' = res || HMAC(key, A || message)
+        (HM(key, A), lambda asg: sm.step.get(asg["A"])),                                      # A' = HMAC(key, A)
+    ]
+    found = S.match_all(eqs, ["A", "RES"], sm.carried)
+    if found is None:
+        # say which equation has no witness
+        why = []
+        for nm, (pat, _g) in zip(("A(1) = HMAC(key, message)", "empty accumulator", "output block = HMAC(key, A(i) || message)", "A(i+1) = HMAC(key, A(i))"), eqs):
+            vals = list(sm.init.values()) if nm in ("A(1) = HMAC(key, message)", "empty accumulator") else list(sm.step.values())
+            if not any(S.unify(pat, v, {}) for v in vals):
+                why.append(nm)
+        r1.fail_fn(p, sm.loop, "P_hash recurrence",
+                   "_tls_p_hash no longer computes the P_hash recurrence of RFC 5246 (A(1) = HMAC(secret, seed); per block: output += HMAC(secret, A(i) + seed), "
+                   "A(i+1) = HMAC(secret, A(i)), all with HMAC over the named hash and the caller's key): no variable satisfies %s; loop-carried state: %s" % (
+                       " / ".join(why) or "all four equations consistently", {k: S.show(v)[:90] for k, v in sm.step.items()}))
+        return rules
+    asg, _b = found
+    r1.ok({"A": asg["A"], "RES": asg["RES"], "A1": S.show(sm.init[asg["A"]])[:100], "res'": S.show(sm.step[asg["RES"]])[:140], "A'": S.show(sm.step[asg["A"]])[:100]})
+    r1.ok({"check": "H is HMAC with the named hash", "hash": p.params[3]})
+    # iteration count: ceil(output_len / hash_len) with hash_len the digest size of the same HMAC, or 'until long enough'
+    hl_pat = ("attr", ("call", ("fn", "hmac.new"), (S.mv("K"), S.mv("M")), (("digestmod", hname),)), "digest_size")
+    tm = shape.times(sm, None)
+
+    def is_hl(t):
+        return S.unify(hl_pat, t, {})
+    ok_n, n_txt = False, S.show(tm[1])[:120] if tm and tm[1] is not None else None
+    if tm and tm[0] == "count" and tm[1] is not None:
+        n0 = tm[1]
+        # (output_len + hash_len - 1) // hash_len  |  math.ceil(output_len / hash_len)  |  -(-output_len // hash_len)
+        if n0[0] == "op" and n0[1] == "FloorDiv" and is_hl(n0[3]):
+            num = n0[2]
+            parts = list(num[2:]) if num[0] == "op" and num[1] == "Sub" else None
+            if parts and parts[1] == ("const", 1) and parts[0][0] == "cat" and sorted(map(repr, parts[0][1])) == sorted(map(repr, (outlen, n0[3]))):
+                ok_n = True
+            if num[0] == "cat" and len(num[1]) == 3 and outlen in num[1] and n0[3] in num[1] and ("const", -1) in num[1]:
+                ok_n = True
+        if n0[0] == "call" and n0[1] == ("fn", "math.ceil") and len(n0[2]) == 1 and n0[2][0][0] == "op" and n0[2][0][1] == "Div" and \
+                n0[2][0][2] == outlen and is_hl(n0[2][0][3]):
+            ok_n = True
+        if n0[0] == "un" and n0[1] == "USub" and n0[2][0] == "op" and n0[2][1] == "FloorDiv" and n0[2][2] == ("un", "USub", outlen) and is_hl(n0[2][3]):
+            ok_n = True
+    elif tm and tm[0] == "until":
+        c = tm[1]
+        # while len(res) < output_len
+        if c[0] == "cmp" and len(c[1]) == 1:
+            l, r_ = c[2]
+            ln = ("call", ("fn", "len"), (("var", asg["RES"]),), ())
+            ok_n = (c[1][0] == "Lt" and l == ln and r_ == outlen) or (c[1][0] == "Gt" and r_ == ln and l == outlen)
+            n_txt = S.show(c)
+    r2.require(ok_n, p, "ceil(output_len / hash_len) blocks",
+               "_tls_p_hash produces %s blocks; ceil(output_len / hash_len) are needed to cover the requested length (hash_len = digest size of the same HMAC)" % n_txt, sm.loop)
+    want_ret = ("slice", ("var", asg["RES"]), None, outlen)
+    r2.require(sm.ret == want_ret, p, "result truncated to output_len",
+               "_tls_p_hash returns %s instead of the accumulated blocks cut to output_len" % (S.show(sm.ret) if sm.ret else None))
     g = [st for st, exc in raising_ifs(p) if exc == "ValueError" and "algorithms_available" in unparse(st.test)]
     r5.require(bool(g), p, "unknown hash refused", "_tls_p_hash no longer refuses an unknown hash name")
 
@@ -96,11 +122,14 @@ def check(repo):
     r2.require("if output_length == LENGTH_NOT_GIVEN" in src and "digest_size" in src and "self.hash_func_name = hash_func_name" in src, init, "default output length is the digest size",
                "HmacPRF.__init__ no longer defaults the output length to the digest size / no longer records the hash name")
     for subj, decl in (("key", "key_length"), ("message", "message_length")):
-        gd = find_guard(call, subj, decl)
-        if r5.require(gd is not None, call, "guard %s" % subj, "HmacPRF.__call__ no longer refuses a %s of the wrong length" % subj):
-            cfg = cfg_of(call.node)
-            r5.require(all(cfg.dominates(cfg.nodes_of(gd)[0], n.id) for n in cfg.nodes if n.kind == "return"), call, "guard %s dominates" % subj,
-                       "HmacPRF.__call__: the %s check does not precede the computation" % subj, gd)
+        refused, bad, F, what = guard_contract(call, subj, decl)
+        if r5.require(bool(refused), call, "guard %s" % subj, "HmacPRF.__call__ no longer refuses a %s of the wrong length" % subj):
+            if bad:
+                nid, alt = bad[0]
+                r5.fail_fn(call, F.cfg.nodes[nid].stmt, "guard %s dominates" % subj,
+                           "HmacPRF.__call__: the %s check does not precede the computation on every path: a result is produced under [%s]" % (subj, describe_alt(alt)))
+            else:
+                r5.ok({"function": "HmacPRF.__call__", "subject": subj, "declared": decl})
     ab = repo.func("toolkit/prf/abstraction.py", "AbstractPRF.__init__")
     s_ab = unparse(ab.node)
     r5.require(all(("self.%s = %s" % (x, x)) in s_ab for x in ("output_length", "message_length", "key_length")), ab, "declared lengths stored",
